@@ -8,7 +8,7 @@ use lsp_types::*;
 use serde_json::{json, Value};
 use tokio::sync::mpsc;
 
-pub const URIS: &[&str] = &["file:///a.spl", "untitled:/a.spl", "file:///b.spl", "file:///dir/a.spl", "file:///%C3%A4.spl"];
+pub const URIS: &[&str] = &["file:///a.spl", "untitled:/a.spl", "file:///b.spl", "file:///dir/a.spl", "file:///%C3%A4.spl", "file:///A.spl", "file:///dir/a.spl?ref=HEAD"];
 
 fn uri(k: usize) -> Url {
     Url::parse(URIS[k % URIS.len()]).unwrap()
